@@ -34,8 +34,10 @@ def one(name, tier):
     os.rmdir(wt)
     out = {}
     try:
-        r = sh("git -C /repo worktree add --detach %s HEAD && git -C %s apply %s/patch.diff" % (wt, wt, sd))
+        r = sh("git -C /repo worktree add --detach %s HEAD && (git -C %s apply %s/patch.diff || "
+               "(git -C %s apply --3way %s/patch.diff && git -C %s reset -q))" % (wt, wt, sd, wt, sd, wt))
         if r.returncode != 0:
+            print(name, "patch does not apply:", r.stdout[-300:])
             return name, {"error": r.stdout[-400:]}
         for p in pids:
             scratch = tempfile.mkdtemp(prefix="zcv-sw-", dir="/var/tmp")
